@@ -724,7 +724,25 @@ def r02_13(ctx):
     ctx.floor("R02.13", "whitespace-predicates", n, 2)
 
 
+def r02_14(ctx):
+    """'the tokenizer state for a fragment's context element': RCDATA / RAWTEXT / script data / PLAINTEXT only for HTML-namespace
+    elements of those names - an SVG <title> or a MathML <textarea> context leaves the tokenizer in the data state"""
+    key, pcs = nfq.cells(ctx, TB, "::tokenizer_state_for_context_elem")
+    bad = None
+    k = 0
+    for pc in nfq.feasible(pcs):
+        if str(pc["ret"]) == "Data" or "panic!" in nfq.names(pc):
+            continue
+        k += 1
+        html = any(v and re.search(r"matches ExpandedName\{ns:atom:http://www\.w3\.org/1999/xhtml,local:", g) for g, v in pc["guards"].items())
+        if not html:
+            bad = "the tokenizer starts in %s for a context element whose namespace was not tested to be HTML (%s)" % (pc["ret"], [g[-60:] for g, v in pc["guards"].items() if v][:2])
+    ctx.ob("R02.14", "context-element-tokenizer-state-html-only", bad is None and k >= 4, bad or "%d non-data answers, all under an HTML-namespace test of the context element" % k, "html5ever tree_builder tokenizer_state_for_context_elem")
+
+
 def run(ctx):
+    ctx.rule("R02.14", "a fragment's context element switches the tokenizer out of the data state only if it is an HTML element")
+    ctx.guard("R02.14", "context-state", lambda: r02_14(ctx))
     ctx.rule("R02.13", "the tree builder's whitespace predicates denote exactly ASCII whitespace (TAB, LF, FF, CR, SPACE)")
     ctx.guard("R02.13", "whitespace", lambda: r02_13(ctx))
     ctx.rule("R02.8", "tag dispatch of every insertion mode and of foreign content equals the independent transcription of the standard's rows: one handling per row, unlisted names handled like a fresh name, rows distinct except where the standard says 'act as anything else'")
